@@ -73,37 +73,92 @@ PROPS["C19"] = {
 }
 
 # ---------------------------------------------------------------- value family (C10, C11)
-def val_rules(nodes=10, lenb=24):
-    """unwindset for the value family. nodes ~ number of type nodes walked by
-    the Vec worklists; lenb ~ distinct sha256 compressions (hash-consing table)"""
+def ty_stats(code):
+    """(padded width, oracle nodes, depth incl. word expansion) of a postfix type code"""
+    st = []
+    n = 0
+    for c in code:
+        n += 1
+        if c == "u":
+            st.append((0, 0))
+        elif c in "bcny":
+            k = {"b": 0, "c": 1, "n": 2, "y": 3}[c]
+            st.append((1 << k, k + 1))
+        else:
+            (wr, dr), (wl, dl) = st.pop(), st.pop()
+            st.append(((1 + max(wl, wr)) if c == "+" else (wl + wr), 1 + max(dl, dr)))
+    (w, d) = st[0]
+    return w, n, d
+
+
+def val_rules(code, lead=0, extra=()):
+    """unwindset for the value family, derived from the type shape: loops whose
+    exit CBMC cannot fold to a constant are unrolled to exactly these bounds
+    (unwinding assertions make a too-small bound an *inconclusive*, never a pass)"""
+    w, n, d = ty_stats(code)
+    w += lead
+    n += 2 * lead
+    d += lead
     return [
         BITITER_NEXT_REC,
-        (r"try_from_fn_erased", "*", 66),        # merkle::concat: core::array::from_fn over 64 bytes
         (r"^memcmp$", "*", 34),                  # [u8; 32] equality (TMR comparison)
-        (r"kani_hashcons::process_blocks", ("rank", 0), 3),
-        (r"kani_hashcons::process_blocks", ("rank", 1), 66),
-        (r"kani_hashcons::process_blocks", ("rank", 2), lenb),
-        (r"kani_hashcons::process_blocks", ("rank", 3), 10),
-        (r"kani_hashcons::process_blocks", ("rank", 4), 66),
-        (r"sha256::(Midstate::to_engine|HashEngine::midstate)", "*", 10),
-        (r"^(vals|c10|c11)::", "*", 34),
-        (r"vals::mark$", "rec", 8),
-        (r"Value::from_compact_bits", "*", 2 * nodes + 3),
-        (r"Value::from_padded_bits", "*", 10),
-        (r"Value::prune", "*", 3 * nodes + 3),
-        (r"CompactBitsIter<'_> as std::iter::Iterator>::next", "*", nodes + 2),
-        (r"CompactBitsIter<'_> as std::iter::Iterator>::fold", "*", 34),
-        (r"value::copy_bits", "*", 34),
-        (r"BitCollector>::collect_bits", "*", 34),
+        (r"^(vals|c10|c11|hcons)::", "*", 34),
+        (r"vals::(mark|n_paths|fix_tags)$", "rec", 8),
+        (r"Value::from_compact_bits", "*", 2 * n + 3),
+        (r"Value::from_padded_bits", ("rank", 0), w // 8 + 2),
+        (r"Value::from_padded_bits", ("rank", 1), 9),
+        (r"Value::prune", "*", 3 * n + 3),
+        (r"CompactBitsIter<'_> as std::iter::Iterator>::next", "*", d + 3),
+        (r"CompactBitsIter<'_> as std::iter::Iterator>::fold", "*", w + 2),
+        (r"value::copy_bits", "*", w + 2),
+        (r"BitCollector>::collect_bits", "*", w + 2),
         (r"Iterator>::fold::<u8", "*", 10),
         (r"extend_with", "*", 10),
-    ]
+    ] + list(extra)
 
 
 PROPS["C10"] = {
-    "filters": ["k10_"],
+    "filters": ["k10_", "kprobe_"],
     "functions": [],
     "harnesses": [
-        H("k10_probe_1pb_dec", timeout=600, unwind=8, unwindset=val_rules(6, 12)),
+        H("k10_probe_1pb_dec", timeout=600, unwind=8, unwindset=val_rules("ub+")),
+        H("kprobe_compact_len", timeout=200, unwind=8, unwindset=val_rules("ub+")),
+        H("kprobe_build_only", timeout=200, unwind=8, unwindset=val_rules("ub+")),
+        H("kprobe_build_only_realsha", timeout=300, unwind=8, unwindset=val_rules("ub+")),
+        H("kprobe_build_only_tmrstub", timeout=200, unwind=8, unwindset=val_rules("ub+")),
+        H("kprobe_produce_only_tmrstub", timeout=200, unwind=8, unwindset=val_rules("ub+")),
+        H("kprobe_compact_len_tmrstub", timeout=300, unwind=8, unwindset=val_rules("ub+")),
+        H("kprobe_compact_len_tmrstub_push", timeout=300, unwind=8, unwindset=val_rules("ub+")),
+        H("kprobe_produce_only", timeout=200, unwind=8, unwindset=val_rules("ub+")),
+        H("kprobe_compact_len_pushstub", timeout=200, unwind=8, unwindset=val_rules("ub+")),
+    ],
+}
+
+JET_RULES = [BITITER_NEXT_REC, WRITE_BIT_REC]
+PROPS["C14"] = {
+    "filters": ["k14_"],
+    "functions": ["{Core,Elements,Bitcoin}::{encode,decode (decode_bits! tree),source_ty,target_ty,Display,FromStr,ALL}"],
+    "bounds": "every 24-bit string through each family's decoder; every index of each ALL table through encode->decode; every Core jet against its Elements namesake; names up to 48 bytes",
+    "outside": "equality of roots/types/costs with the C tables and agreement of extern declarations with C prototypes (no input to quantify over; C side not encodable)",
+    "harnesses": [
+        H("k14_1_core_decode_encode", timeout=900, mem_gb=12, unwindset=JET_RULES),
+        H("k14_1_elements_decode_encode", timeout=900, mem_gb=12, unwindset=JET_RULES),
+        H("k14_1_bitcoin_decode_encode", timeout=900, mem_gb=12, unwindset=JET_RULES),
+        H("k14_2_core_all_roundtrip", timeout=900, mem_gb=12, unwindset=JET_RULES),
+        H("k14_2_elements_all_roundtrip", timeout=900, mem_gb=12, unwindset=JET_RULES),
+        H("k14_2_bitcoin_all_roundtrip", timeout=900, mem_gb=12, unwindset=JET_RULES),
+        H("k14_3_core_vs_elements", timeout=1200, mem_gb=12, unwindset=JET_RULES),
+        H("k14_4_core_names", tiers=("thorough",), timeout=2400, mem_gb=16, core=False, unwindset=JET_RULES),
+        H("k14_4_elements_names", tiers=("thorough",), timeout=2400, mem_gb=16, core=False, unwindset=JET_RULES),
+        H("k14_4_bitcoin_names", tiers=("thorough",), timeout=2400, mem_gb=16, core=False, unwindset=JET_RULES),
+    ],
+}
+
+PROPS["C07"] = {
+    "engine": "mir",
+    "assumptions": [
+        "the interpreter's peak cell/frame usage per combinator is the recurrence read off BitMachine::exec_with_tracker (comp: mid + max, 1 + max; disconnect: src + tgt + max, 2 + max; case/pair: max; unary: child; leaves: 0); it is a model, validated natively against the real interpreter's verif-hooks high-water marks on a family of concrete programs on every run",
+        "frame bounds of sub-expressions are at most 2^62 (they count nested frames)",
+        "models of core helpers (cmp::max, Try::branch, FromResidual, Arc deref, vec allocation returning the requested length/capacity) as written in vlib/mir2smt.py and vlib/mircheck.py",
     ],
 }
